@@ -1,5 +1,6 @@
 import XMT.Drv.Util
 import XMT.Utf16
+import XMT.RegDisplay
 namespace XMT.Drv.C20
 open XMT XMT.Utf16 XMT.Drv
 
@@ -65,6 +66,15 @@ def handle (args : List String) : String :=
     | some us => showInts (refDecode us) | none => "bad-op"
   | ["reffnv", h] => match ofHex h with
     | some bs => toString (fnv1Ref bs) | none => "bad-op"
+  -- session-3 extension: display form of a registry value (Entry.String / TypeName), util.Uitoa
+  | ["rstr", t, nl, h] => match natOf t, natOf nl, ofHex h with
+    | some ty, some n, some d => showOut showInts (entryString ty n d) | _, _, _ => "bad-op"
+  | ["rtn", t] => match natOf t with
+    | some ty => "ok " ++ (["KEY", "DWORD", "QWORD", "BINARY", "MULTI_STRING", "STRING", "-"].getD (entryTypeName ty) "?")
+    | none => "bad-op"
+  | ["uitoa", v] => match natOf v with
+    | some n => if n < 18446744073709551616 then showOut hexOrDash (uitoa n) else "bad-op"
+    | none => "bad-op"
   | _ => "bad-op"
 
 end XMT.Drv.C20
